@@ -231,6 +231,14 @@ var registry = map[string]*Check{}
 
 func Register(c *Check) { registry[c.ID] = c }
 
+// AppendRule adds text to the enumeration rule of an already registered check
+// (a family shared between checks describes itself once).
+func AppendRule(id, text string) {
+	if c := registry[id]; c != nil {
+		c.Rule += " " + text
+	}
+}
+
 // Main is the entry point of the check binary.
 func Main() {
 	args := os.Args[1:]
